@@ -22,6 +22,14 @@ CHECKS = {
                 text="Row count n = max(1, ceil(D/dt)), on-time release, occupancy bound and never-early release are invariants over multi-step behaviours with arbitrary inflow sequences chosen by TLC; every row of every timed compartment and duration-preserving link is compared with the real code at every index; the shift and flush relations are evaluated by TLC on observed rows.",
                 ref="DESIGN.md section 6 C05"),
 }
+PURE_NOTE = ("Trusted base: TLC 1.8; the harness that materialises each enumerated case as real atomica objects and ships the returned floats exactly "
+             "(limb encoding, harness/fix.py). Exhaustive only over the stated finite grids (evidence lists them); transcendental parts are covered by relational clauses only.")
+CHECKS["C03"] = dict(tech="Engine.tla as the independent exact re-implementation: TLC exhaustive exploration + replay of every explored trajectory into Model (rtol 1e-9) + TLC trace validation of conversion/resolve relations (ConvertRel, ResolveRel) on replayed, random multi-step and library runs; TimeGrid.tla enumeration of (start,end,dt) + TLC validation of ProjectSettings.tvec",
+                     text="The engine specification is written from the documentation in exact rational arithmetic; every compartment, flow and row trajectory it predicts is compared with the real code for every explored world, state and parameter vector; on library models TLC re-derives every flow from the logged parameter values and stocks via the multiplied-out documented relations; the time grid is enumerated over representable and non-representable steps that do and do not divide the span.",
+                     ref="DESIGN.md section 6 C03")
+CHECKS["C12"] = dict(tech="TLC exhaustive model checking of Covout.tla (weights on combinations: NonNegW, SumsToOne, Marginals, Convex, ZeroCov, Single, Monotone) + every enumerated case executed through Covout.get_outcome + TLC judgment of the returned values (CovoutTrace.tla: Expect, Convex, ZeroCov, Single, Marginal probes, Monotone pairs)",
+                     text="The three coverage interactions are transcribed as a weight on every program combination; TLC proves on all grid cases (1-3 programs quick, 4 thorough) that the weights are a probability distribution with the coverages as marginals and the derived clauses; each case is then run in the real code and TLC compares the exact expected value and evaluates the property's clauses on the observed numbers, including marginals probed with indicator outcomes.",
+                     ref="DESIGN.md section 6 C12", note=PURE_NOTE)
 NOT_YET = {}
 
 
@@ -34,7 +42,7 @@ def main():
         if pid in CHECKS:
             c = CHECKS[pid]
             checks.append(dict(property_id=pid, quick_cmd="./check %s --tier quick" % pid, thorough_cmd="./check %s --tier thorough" % pid,
-                               evidence_file="evidence/%s.json" % pid, replay_cmd_template="./check %s --replay {path}" % pid, engine="tla-engine" if pid in ("C01", "C02", "C03", "C04", "C05") else "tla-" + pid.lower(),
+                               evidence_file="evidence/%s.json" % pid, replay_cmd_template="./check %s --replay {path}" % pid, engine="tla-engine" if pid in ("C01", "C02", "C03", "C04", "C05") else "tla-pure",
                                level_claimed=dict(category="model_checking", text=c["text"], design_ref=c["ref"]), level_note=c.get("note", ENGINE_NOTE), technique=c["tech"]))
         else:
             na.append(dict(property_id=pid, reason=NOT_YET.get(pid, "check under construction in this session: specification module and conformance harness not committed yet (the technique applies; see DESIGN.md section 6 %s)" % pid)))
@@ -42,7 +50,8 @@ def main():
              setup_cmd="./setup.sh",
              hooks=dict(guard="ATOMICA_VERIF", enable="no source hooks: observation is by run-time wrappers installed by harness/observe.py (ATOMICA_VERIF=1 is exported by ./check for completeness)",
                         baseline_off_cmd="cd /repo && /venv/bin/python -m pytest -ra -q -p no:cacheprovider --timeout=900 --continue-on-collection-errors", source_commits=[], add_only=True),
-             engines=[dict(name="tla-engine", path="spec/Engine.tla", serves_properties=["C01", "C02", "C03", "C04", "C05"], kind_free_text="explicit TLA+ specification of the integration loop, TLC exhaustive + replay + trace validation")],
+             engines=[dict(name="tla-engine", path="spec/Engine.tla", serves_properties=["C01", "C02", "C03", "C04", "C05"], kind_free_text="explicit TLA+ specification of the integration loop, TLC exhaustive + replay + trace validation"),
+                      dict(name="tla-pure", path="spec/", serves_properties=["C12"], kind_free_text="per-mechanism TLA+ modules (case enumeration + theorems checked by TLC) with a trace module that judges the values returned by the real code")],
              checks=checks, not_applicable=na,
              notes="Two genuine defects repaired in /repo with 'fix:' commits (see known_findings.json). Exit codes: 0 held, 1 violation, 2 machinery failure.")
     json.dump(m, open(os.path.join(HERE, "MANIFEST.json"), "w"), indent=1)
